@@ -177,6 +177,12 @@ func runC14(seed int64, n int, tier string, outDir string) (*Report, error) {
 	for _, tail := range []string{"/r?x=", "/r?x=/", "/r?x=a", "/r?x=a/", "/r/?x=a", "/r?x=a&y=/", "/r?y=/&x=a", "/r?y=&x=a"} {
 		nested = append(nested, "https://a.example"+tail)
 	}
+	// one host with no port, the schemes' default ports and other ports: host equality is host WITH port
+	for _, sch := range []string{"http", "https"} {
+		for _, port := range []string{"", ":80", ":443", ":8080", ":0"} {
+			nested = append(nested, sch+"://p.example"+port+"/r")
+		}
+	}
 	for ai, a := range nested {
 		for bi, b := range nested {
 			for _, cs := range []bool{false, true} {
